@@ -547,10 +547,12 @@ func (c *Conn) Flush() (err error) {
 
 	for {
 		n, err := c.c.Write(c.outputBuffer.head.buf[c.outputBuffer.head.off:c.outputBuffer.head.malloc])
+		// (what a failed write did take - a write cut short by its deadline - is gone: a
+		// later Flush must not send it again)
+		c.outputBuffer.head.off += n
 		if err != nil {
 			return err
 		}
-		c.outputBuffer.head.off += n
 		if c.outputBuffer.head == c.outputBuffer.write {
 			// If the capacity of buffer is less than 8k, then just reset the node
 			if c.outputBuffer.head.recyclable() {
